@@ -5,12 +5,14 @@ mod c18;
 mod dec;
 mod lab;
 mod c05;
+mod c07;
 mod c08;
 mod c10;
 mod monitor;
 mod c12;
 mod c13;
 mod c14;
+mod c15;
 mod c16;
 mod c19;
 mod c20;
@@ -24,11 +26,13 @@ fn main() {
         "c04" => c04::run(&args),
         "c18" => c18::run(&args),
         "c05" => c05::run(&args),
+        "c07" => c07::run(&args),
         "c08" => c08::run(&args),
         "c10" => c10::run(&args),
         "c12" => c12::run(&args),
         "c13" => c13::run(&args),
         "c14" => c14::run(&args),
+        "c15" => c15::run(&args),
         "c16" => c16::run(&args),
         "c19" => c19::run(&args),
         "c20" => c20::run(&args),
